@@ -14,6 +14,7 @@ import (
 	"net"
 	"os"
 	"runtime"
+	"sync/atomic"
 	"syscall"
 	"time"
 	"unsafe"
@@ -107,6 +108,7 @@ func (p *poller) addConn(c *Conn) error {
 		c.mux.Unlock()
 		return net.ErrClosed
 	}
+	c.epollGen = atomic.AddInt32(&epollGen, 1)
 	p.g.connsUnix[fd] = c
 	err := p.addRead(fd)
 	if err == nil && len(c.writeList) > 0 {
@@ -150,6 +152,7 @@ func (p *poller) addDialer(c *Conn) error {
 	// is in the table Stop may close it, and that must not interleave with the
 	// registration of its descriptor.
 	c.mux.Lock()
+	c.epollGen = atomic.AddInt32(&epollGen, 1)
 	p.g.connsUnix[fd] = c
 	c.isWAdded = true
 	err := p.addReadWrite(fd)
@@ -170,6 +173,19 @@ func (p *poller) addDialer(c *Conn) error {
 //go:norace
 func (p *poller) getConn(fd int) *Conn {
 	return p.g.connsUnix[fd]
+}
+
+// epollGen numbers the registrations of connections with epoll.
+var epollGen int32
+
+// genOf returns the registration number of the connection that owns fd.
+//
+//go:norace
+func (p *poller) genOf(fd int) int32 {
+	if c := p.g.connsUnix[fd]; c != nil {
+		return c.epollGen
+	}
+	return 0
 }
 
 //go:norace
@@ -351,6 +367,12 @@ func (p *poller) readWriteLoop() {
 
 			default: // for socket connections
 				c := p.getConn(fd)
+				if c != nil && c.epollGen != ev.Pad {
+					// A stale event: it was reported for a connection that has
+					// been closed since epoll_wait returned, and the descriptor
+					// number belongs to another connection now.
+					c = nil
+				}
 				if c != nil {
 					if ev.Events&epollEventsWrite != 0 {
 						if c.onConnected == nil {
@@ -471,6 +493,7 @@ func (p *poller) setRead(op int, fd int) error {
 			if op == syscall.EPOLL_CTL_ADD {
 				return syscall.EpollCtl(p.epfd, op, fd, &syscall.EpollEvent{
 					Fd:     int32(fd),
+					Pad:    p.genOf(fd),
 					Events: events | syscall.EPOLLOUT,
 				})
 			}
@@ -478,6 +501,7 @@ func (p *poller) setRead(op int, fd int) error {
 		}
 		return syscall.EpollCtl(p.epfd, op, fd, &syscall.EpollEvent{
 			Fd:     int32(fd),
+			Pad:    p.genOf(fd),
 			Events: events,
 		})
 	default:
@@ -486,7 +510,8 @@ func (p *poller) setRead(op int, fd int) error {
 			op,
 			fd,
 			&syscall.EpollEvent{
-				Fd: int32(fd),
+				Fd:  int32(fd),
+				Pad: p.genOf(fd),
 				Events: syscall.EPOLLERR |
 					syscall.EPOLLHUP |
 					syscall.EPOLLRDHUP |
@@ -523,6 +548,7 @@ func (p *poller) setReadWrite(op int, fd int) error {
 			if op == syscall.EPOLL_CTL_ADD {
 				return syscall.EpollCtl(p.epfd, op, fd, &syscall.EpollEvent{
 					Fd:     int32(fd),
+					Pad:    p.genOf(fd),
 					Events: events,
 				})
 			}
@@ -530,13 +556,15 @@ func (p *poller) setReadWrite(op int, fd int) error {
 		}
 		return syscall.EpollCtl(p.epfd, op, fd, &syscall.EpollEvent{
 			Fd:     int32(fd),
+			Pad:    p.genOf(fd),
 			Events: events,
 		})
 	default:
 		return syscall.EpollCtl(
 			p.epfd, op, fd,
 			&syscall.EpollEvent{
-				Fd: int32(fd),
+				Fd:  int32(fd),
+				Pad: p.genOf(fd),
 				Events: syscall.EPOLLERR |
 					syscall.EPOLLHUP |
 					syscall.EPOLLRDHUP |
